@@ -118,6 +118,8 @@ class Context:
                 mod = ast.parse(txt, filename=rel)
             except SyntaxError as e:
                 raise AnalysisError(rule, "cannot parse %s: %s" % (rel, e))
+            if rel.endswith(".py") and "/generated/" not in rel and os.environ.get("VERIF_NO_NORMALISE") != "1":
+                normalise_polarity(mod)
             for parent in ast.walk(mod):
                 for child in ast.iter_child_nodes(parent):
                     child._parent = parent  # type: ignore[attr-defined]
@@ -174,6 +176,33 @@ class Context:
                 if st.target.id == name and st.value is not None:
                     return st.value
         raise AnalysisError(rule, "anchor table %s:%s not found" % (rel, name))
+
+
+_POSITIVE = {ast.NotEq: ast.Eq, ast.IsNot: ast.Is, ast.NotIn: ast.In}
+
+
+def normalise_polarity(mod: ast.AST) -> int:
+    """Canonical polarity of plain if/else statements: `if not T: A else: B` is read as `if T: B else: A`, and `if a != b`,
+    `a is not b`, `a not in b` with an else branch as their positive form with the branches exchanged.  Behaviour is the same;
+    rules that look at "the branch taken when T holds" then do not depend on which way round a developer wrote the test.
+    elif chains are left alone (turning one inside out is not an edit anybody makes)."""
+    n_flipped = 0
+    for n in ast.walk(mod):
+        if not (isinstance(n, ast.If) and n.orelse):
+            continue
+        if len(n.orelse) == 1 and isinstance(n.orelse[0], ast.If):
+            continue  # an elif chain
+        p = getattr(n, "_chain_member", False)
+        t = n.test
+        if isinstance(t, ast.UnaryOp) and isinstance(t.op, ast.Not):
+            n.test = t.operand
+        elif isinstance(t, ast.Compare) and len(t.ops) == 1 and type(t.ops[0]) in _POSITIVE:
+            t.ops = [_POSITIVE[type(t.ops[0])]()]
+        else:
+            continue
+        n.body, n.orelse = n.orelse, n.body
+        n_flipped += 1
+    return n_flipped
 
 
 def _flat_defs(body):
@@ -280,6 +309,10 @@ def run_rules(spec: PropertySpec, ctx: Context, tier: str) -> Report:
         except AnalysisError as e:
             # do not let one rule's vanished anchor hide another rule's violation
             rep.analysis_errors.append(e)
+        except Exception as e:  # noqa: BLE001  a crash of one rule is an analysis error of that rule (exit 2), never a pass
+            import traceback
+            rep.analysis_errors.append(AnalysisError(r.rid if hasattr(r, "rid") else "rule", "rule crashed: %s: %s @ %s" % (
+                type(e).__name__, e, traceback.format_exc().strip().splitlines()[-3].strip())))
     return rep
 
 
